@@ -82,6 +82,20 @@ theorem squareCoords_eq : squareCoords = axisAligned := by
   funext p0 p1 p2 p3
   simp only [squareCoords, has_square_coordinates, axisAligned]
 
+/-- `do_m l c v y` with the regenerated operand order unfolded. -/
+theorem doSeg_m (x y : Rat) (st : IState) : doSeg .m [.num x, .num y] st = pushSeg st (.m (x, y)) := rfl
+theorem doSeg_l (x y : Rat) (st : IState) : doSeg .l [.num x, .num y] st = pushSeg st (.l (x, y)) := rfl
+theorem doSeg_c (x1 y1 x2 y2 x3 y3 : Rat) (st : IState) :
+    doSeg .c [.num x1, .num y1, .num x2, .num y2, .num x3, .num y3] st = pushSeg st (.c (x1, y1) (x2, y2) (x3, y3)) := rfl
+theorem doSeg_v (x2 y2 x3 y3 : Rat) (st : IState) :
+    doSeg .v [.num x2, .num y2, .num x3, .num y3] st = pushSeg st (.v (x2, y2) (x3, y3)) := rfl
+theorem doSeg_y (x1 y1 x3 y3 : Rat) (st : IState) :
+    doSeg .y [.num x1, .num y1, .num x3, .num y3] st = pushSeg st (.y (x1, y1) (x3, y3)) := rfl
+
+/-- An operand that is not a number: nothing is appended. -/
+theorem doSeg_bad (k : OpK) (args : List Operand) (st : IState) (h : allNums args = none) : doSeg k args st = st := by
+  simp [doSeg, h]
+
 /-- The regenerated constants of the redundant-`l` test, unfolded. -/
 theorem redundantL_eq (shape : List Char) (pts : List Point) :
     redundantL shape pts =
